@@ -79,6 +79,25 @@ ALNUM = 'ABCDEFGHIJKLMNOPQRSTUVWXYZabcdefghijklmnopqrstuvwxyz0123456789'
 # --------------------------------------------------------------------------
 # generators
 # --------------------------------------------------------------------------
+
+def _lay(a):
+    """the same coordinate VALUES in another memory layout (chosen from the data, so it replays):
+    C-ordered, Fortran-ordered, a strided view, or a reversed-stride view"""
+    import numpy as np
+    if a.ndim != 2 or a.size == 0:
+        return a
+    k = (a.shape[0] * 7 + int(abs(float(a.sum()))) ) % 4
+    if k == 1:
+        return np.asfortranarray(a)
+    if k == 2:
+        big = np.zeros((2 * a.shape[0], 2 * a.shape[1]), dtype=a.dtype)
+        big[::2, ::2] = a
+        return big[::2, ::2]
+    if k == 3:
+        return np.ascontiguousarray(a[::-1, ::-1])[::-1, ::-1]
+    return a
+
+
 def _word(rng, n, alphabet=ALNUM):
     return ''.join(rng.choice(alphabet) for _ in range(n))
 
@@ -496,10 +515,10 @@ def build(node):
     elif t == 'UIDREF':
         it = sr.UIDRefContentItem(name, v['s'], rel)
     elif t == 'SCOORD':
-        it = sr.ScoordContentItem(name, v['gt'], np.array(v['pts']), pixel_origin_interpretation=v['poi'],
+        it = sr.ScoordContentItem(name, v['gt'], _lay(np.array(v['pts'])), pixel_origin_interpretation=v['poi'],
                                   fiducial_uid=v['fid'], relationship_type=rel)
     elif t == 'SCOORD3D':
-        it = sr.Scoord3DContentItem(name, v['gt'], np.array(v['pts']), v['for'], fiducial_uid=v['fid'],
+        it = sr.Scoord3DContentItem(name, v['gt'], _lay(np.array(v['pts'])), v['for'], fiducial_uid=v['fid'],
                                     relationship_type=rel)
     elif t == 'TCOORD':
         kw = {'samples': 'referenced_sample_positions', 'offsets': 'referenced_time_offsets',
@@ -835,12 +854,12 @@ def run_impl(c):
         return catch(lambda: obs_code(sr.CodedConcept.from_dataset(_code_ds(c))))
     if k == 'scoord':
         n = _cc(sr, ['1', '99X', 'n', None])
-        return catch(lambda: bool(sr.ScoordContentItem(n, c['gt'], np.array(c['pts'], dtype=float).reshape(len(c['pts']), c['dim']),
+        return catch(lambda: bool(sr.ScoordContentItem(n, c['gt'], _lay(np.array(c['pts'], dtype=float).reshape(len(c['pts']), c['dim'])),
                                                         relationship_type='CONTAINS')) or True)
     if k == 'scoord3d':
         n = _cc(sr, ['1', '99X', 'n', None])
         dim = 2 if c['mode'] == 'dim2' else 3
-        return catch(lambda: bool(sr.Scoord3DContentItem(n, c['gt'], np.array(c['pts'], dtype=float).reshape(len(c['pts']), dim),
+        return catch(lambda: bool(sr.Scoord3DContentItem(n, c['gt'], _lay(np.array(c['pts'], dtype=float).reshape(len(c['pts']), dim)),
                                                           '1.2.3', relationship_type='CONTAINS')) or True)
     if k == 'malformed':
         r = catch(_mal_inputs, c)
